@@ -132,11 +132,12 @@ def main(tier):
 def _atom(o, truth):
     """normalised atomic test: (frozenset of operand texts, 'eq'|'ne') or ('raw', text, truth)"""
     txt = defuse.show(o) if not (isinstance(o, tuple) and o and o[0] == "disc") else "disc(%s)" % defuse.show(o[1])
+    txt = txt.replace("*", "").replace("&", "")      # by value or behind a reference: the same operand
     m = re.match(r"^\((.+) (Eq|Ne) (.+)\)$", txt)
     if m:
         pol = (m.group(2) == "Eq") == truth
         return (frozenset({m.group(1), m.group(3)}), "eq" if pol else "ne")
-    m = re.match(r"^(eq|ne)\(&(.+), &(.+)\)$", txt)
+    m = re.match(r"^(eq|ne)\((.+), (.+)\)$", txt)
     if m:
         pol = (m.group(1) == "eq") == truth
         return (frozenset({m.group(2), m.group(3)}), "eq" if pol else "ne")
@@ -196,9 +197,39 @@ def version_rules(chk, w):
         return
     bb = calls[0][0]
     n = 0
+    conds = []
     for sw, v, _tb in G.edge_conditions(b, bb):
         tr = G.truth(b.blocks[sw].term, v)
         o = du.origin(b.blocks[sw].term.discr)
+        # a pre-check moved into a private `fn(&self) -> bool`: the tests under which it answers true
+        hs = [g for g in w.fns.values() if o[0] == "call" and g.p == o[1] and g.crate.name == "pczt" and
+              not g.is_closure() and g.body is not None and g.body.local_ty(0) == "bool"]
+        if tr is True and len(hs) == 1 and len(o[2]) == 1 and defuse.strip_refs(o[2][0]) == ("arg", 0):
+            hb, hdu = hs[0].body, defuse.DefUse(hs[0].body)
+            trues = [bi for bi, blk in enumerate(hb.blocks) if not blk.cleanup for st in blk.stmts
+                     if st.kind == "=" and st.place.local == 0 and not st.place.proj and st.rv.kind == "use" and
+                     st.rv.ops[0].kind == "const" and st.rv.ops[0].info.get("v") == 1]
+            others = [bi for bi, blk in enumerate(hb.blocks) if not blk.cleanup for st in blk.stmts
+                      if st.kind == "=" and st.place.local == 0 and not st.place.proj and
+                      not (st.rv.kind == "use" and st.rv.ops[0].kind == "const")]
+            others += [bi for bi, blk in enumerate(hb.blocks) if not blk.cleanup and blk.term.kind == "call" and
+                       blk.term.dest is not None and blk.term.dest.local == 0 and not blk.term.dest.proj]
+            if len(trues) + len(others) == 1:
+                for sw2, v2, _t2 in G.edge_conditions(hb, (trues + others)[0]):
+                    conds.append((hb.blocks[sw2].term, hdu.origin(hb.blocks[sw2].term.discr),
+                                  G.truth(hb.blocks[sw2].term, v2)))
+                if others:
+                    blk = hb.blocks[others[0]]
+                    lastc = blk.term if blk.term.kind == "call" and blk.term.dest is not None and \
+                        blk.term.dest.local == 0 else None
+                    if lastc is not None:
+                        conds.append((lastc, ("call", lastc.callee.target_p(), [hdu.origin(a_) for a_ in lastc.args]), True))
+                    else:
+                        st = [x for x in blk.stmts if x.kind == "=" and x.place.local == 0][-1]
+                        conds.append((blk.term, hdu.origin(st.rv.ops[0]) if st.rv.kind == "use" else ("unknown",), True))
+                continue
+        conds.append((b.blocks[sw].term, o, tr))
+    for tm, o, tr in conds:
         a = _atom(o, bool(tr))
         n += 1
         if tr is not None and _neg(a) in singles:
@@ -208,11 +239,18 @@ def version_rules(chk, w):
             chk.fail("VERSION", "precheck/%s" % re.sub(r"[^A-Za-z0-9_.]+", "_", defuse.show(o))[:60],
                      "serialize attempts the v1 encoding only when `%s` is %s, but the v1 conversion does not reject "
                      "the opposite case: content representable in v1 is encoded as v2" % (defuse.show(o)[:120], tr),
-                     b.blocks[sw].term.span.loc())
+                     tm.span.loc())
     # Ok(v1) => return Ok(v1.serialize())
     import assume as S
     res = S.after_call(b, bb, S.E("Result", "Ok"))
     v1ser = [x for x, t in b.calls() if t.callee.indirect is None and t.callee.target_p() == "pczt::v1::Pczt::serialize"]
+    # ... or inside a closure handed to a combinator (`.ok().map(|v1| v1.serialize())`): the block that builds it
+    for g in w.fns.values():
+        if g.is_closure() and g.root == ser[0].id and any(
+                t.callee.indirect is None and t.callee.target_p() == "pczt::v1::Pczt::serialize" for _x, t in g.body.calls()):
+            v1ser += [bi for bi, blk in enumerate(b.blocks) if not blk.cleanup for st in blk.stmts
+                      if st.kind == "=" and st.rv.kind == "agg" and st.rv.agg[0] == "closure" and
+                      (st.rv.agg[1] == g.id or st.rv.agg[1] == g.p)]
     v2 = [x for x, t in b.calls() if t.callee.indirect is None and "v2::Pczt" in t.callee.target_p()]
     if res is not None and v1ser and set(v1ser) <= res.blocks and not (set(v2) & res.blocks):
         chk.ok("VERSION", "a successful v1 conversion is what serialize returns; v2 is used only after it failed or "
